@@ -2,7 +2,7 @@
    Model: read_file, read_file_vol (par2/file.go readFile, on the index file and on a recovery file),
    new_decoder, load_parity, parity_array in Model/Par2.v;
    the directory listing of Model/FS.v (literal prefix and suffix, entries of one directory). *)
-From Gopar Require Import Proofs.Par1Clean Proofs.Par2Reader2 Proofs.Par2Ignore Proofs.Par2LayoutOps Proofs.Par2Targets.
+From Gopar Require Import Proofs.Par1Clean Proofs.Par2Reader2 Proofs.Par2Ignore Proofs.Par2LayoutOps Proofs.Par2Targets Proofs.Par2SpecReader.
 From Gopar Require Import Model.Base Model.CRC Model.GoPath Model.FS Model.Par2
      Proofs.Par2Facts Proofs.Par2Verify Proofs.Par2Create Proofs.Par2Layout.
 Open Scope N_scope.
@@ -175,3 +175,46 @@ Theorem C06_intact_block_found_and_used : forall md5, (forall x, length (md5 x) 
        c_pusable (shard_counts ds) = length es).
 Proof. exact intact_block_found_and_used. Qed.
 Print Assumptions C06_intact_block_found_and_used.
+
+(* ACCEPTANCE: what the specification accepts, gopar's reader accepts, with the same fields (Proofs/Par2SpecReader.v) - the
+   reader-side counterpart of C05's writer theorem.  [s_index] / [s_volume] are specification-side predicates on BYTES built on
+   Model/Par2Spec.s_parse: back-to-back well-formed packets in ANY order, duplicates, packets of other sets and of unknown types;
+   main / file description / IFSC / recovery bodies laid out as the PAR 2.0 text says; slice size a non-zero multiple of 4; ids
+   ascending; file id = MD5(16k-hash, length, name); set id = MD5(main body); a description and a checksum list of the right
+   length for every id.  [g_index_extra] / [g_volume_extra] are EXACTLY what gopar's reader requires beyond that (each with a
+   proved counterexample in Par2SpecReader: first packet of the index of its own set; no recovery packet and a creator packet in
+   the index; slice size <= 2^40; non-empty files; names passing checkFilename; exponents <= 65535).  Then the decoder has the
+   specification's set id, slice size and, in main-packet order, every file's name, length, hashes and checksum list; a volume's
+   recovery blocks are exactly the specification's; and a whole directory - index plus any files the listing picks up, all
+   specification-valid - loads to exactly the specification's block table. *)
+Theorem C06_spec_index_accepted : forall md5, (forall x, length (md5 x) = 16%nat) ->
+  forall ix fs b sid si,
+  wf_bytes b -> fs_lookup fs ix = Some b -> s_index md5 sid b = Some si -> g_index_extra md5 sid b = true ->
+  exists d st, new_decoder md5 ix (io_init fs []) = (Ok d, st) /    d_index d = ix /\ d_setid d = sid /\ d_slice d = si_slice si /    d_rec d = map dinfo_of (si_rec si) /\ d_nonrec d = map dinfo_of (si_nonrec si).
+Proof. exact spec_index_accepted. Qed.
+Print Assumptions C06_spec_index_accepted.
+
+Theorem C06_spec_volume_accepted : forall md5, (forall x, length (md5 x) = 16%nat) ->
+  forall b sid rs,
+  wf_bytes b -> s_volume md5 sid b = Some rs -> g_volume_extra md5 sid b = true ->
+  (has_own md5 sid b = true ->
+     exists f, read_file_vol md5 sid b = RFOk sid f /               (forall e d, In (e, d) (pf_recv f) <-> In (e, d) rs) /               (forall e d, assoc_n (pf_recv f) e = Some d <-> In (e, d) rs)) /  (has_own md5 sid b = false -> read_file_vol md5 sid b = RFNoPackets).
+Proof. exact spec_volume_accepted. Qed.
+Print Assumptions C06_spec_volume_accepted.
+
+Theorem C06_spec_set_loaded : forall md5, (forall x, length (md5 x) = 16%nat) ->
+  forall ix fs bix sid si,
+  str_eqb (ext ix) EXT_PAR2 = true -> fs_lookup fs ix = Some bix -> wf_bytes bix ->
+  s_index md5 sid bix = Some si -> g_index_extra md5 sid bix = true ->
+  (forall p b, In p (rec_listing ix fs) -> fs_lookup fs p = Some b ->
+     wf_bytes b /\ s_volume_of md5 sid si b = true /\ g_volume_extra md5 sid b = true) ->
+  (forall p1 b1 p2 b2 e d1 d2, In p1 (rec_listing ix fs) -> fs_lookup fs p1 = Some b1 ->
+     In p2 (rec_listing ix fs) -> fs_lookup fs p2 = Some b2 ->
+     In (e, d1) (s_blocks md5 sid b1) -> In (e, d2) (s_blocks md5 sid b2) -> d1 = d2) ->
+  (forall x, In x (si_rec si) -> fs_lookup fs (file_path ix (sfl_name x)) = None -> is_dir fs (file_path ix (sfl_name x)) = false) ->
+  exists ds st',
+    load_all md5 ix (io_init fs []) = (Ok ds, st') /    d_index (ds_dec ds) = ix /\ d_setid (ds_dec ds) = sid /\ d_slice (ds_dec ds) = si_slice si /    d_rec (ds_dec ds) = map dinfo_of (si_rec si) /\ d_nonrec (ds_dec ds) = map dinfo_of (si_nonrec si) /    (forall e dd, nth (N.to_nat e) (ds_parity ds) None = Some dd <->
+                  exists p b, In p (rec_listing ix fs) /\ fs_lookup fs p = Some b /\ In (e, dd) (s_blocks md5 sid b)) /    (forall e, nth (N.to_nat e) (ds_parity ds) None = None <->
+               ~ exists dd p b, In p (rec_listing ix fs) /\ fs_lookup fs p = Some b /\ In (e, dd) (s_blocks md5 sid b)).
+Proof. exact spec_set_loaded. Qed.
+Print Assumptions C06_spec_set_loaded.
